@@ -29,12 +29,17 @@ from six.moves import range  # type: ignore
 from pydicom.dataset import Dataset
 
 from . import dsutils
+from . import exceptions
 from . import pdu
 
 NO_DATASET = 0x0101
 
 # PDU length used for fragmentation when no maximum length is in force (maximum length is 0)
 UNLIMITED_PDU_LENGTH = 65536
+
+# Smallest maximum PDU length that leaves room for a fragment: presentation data value item
+# header (item length, presentation context ID, message control header) takes 6 bytes.
+MIN_PDU_LENGTH = 7
 
 PRIORITY_LOW = 0x0002
 PRIORITY_MEDIUM = 0x0000
@@ -185,6 +190,12 @@ class DIMSEMessage(object):
         :yield: P-DATA-TF PDUs
         :rtype: pdu.PDataTfPDU
         """
+        if 0 < max_pdu_length < MIN_PDU_LENGTH:
+            # Reported to the sender right away: fragmenting would only fail later, in
+            # the DUL provider thread that consumes the returned generator.
+            raise exceptions.DIMSEProcessingError(
+                'Maximum PDU length {0} is too small to carry any data'.format(max_pdu_length))
+
         # Command set is encoded (and dataset is picked) right away, not when the returned
         # generator is consumed by the DUL provider thread: the caller may be changing
         # and re-sending this message object by then.
